@@ -7,10 +7,15 @@
 //! mod    := catch stages bud  progs progs progs  lp(end)     catch odd: Stereotyp.on_panic_catch; 1 + stages mod 3 stages;
 //!                                                bit 1+id of catch: task id is handed to current().join() instead of try_join()
 //! progs  := n lp(prog){n}                        start programs (by incarnation), message programs (by payload), tasks
-//! prog   := (op a b c)*                          op%10: 0 log c | 1 send_in(gate a odd ? "far" : "out", b ns, payload c)
+//! prog   := (op a b c)*                          op%13: 0 log c | 1 send_in(gate a odd ? "far" : "out", b ns, payload c)
 //!                                                | 2 schedule_in(b ns, payload c) | 3 sleep b ns (tasks) | 4 shutdown()
 //!                                                | 5 shutdow_and_restart_in(b ns) | 6 panic!() | 7 quiet (callbacks)
-//!                                                | 8 / 9 set_stereotyp(on_panic_catch = true / false)       (op%10)
+//!                                                | 8 / 9 set_stereotyp(on_panic_catch = true / false)
+//!                                                | 10 schedule_at(now - (1 + b) ns, payload c): the library call panics ("less than the
+//!                                                  current simulation time")  | 11 send_at(gate a, now - (1 + b) ns, payload c): same
+//!                                                | 12 current().shutdow_and_restart_at(now - (1 + b) ns): same (since 09c7b16)
+//!                                                  -- panics raised by the API on behalf of the module; at now = 0 (where no past
+//!                                                  exists) the script panics itself instead                      (op%13)
 //! inj    := kind m time payload                  kind%3: 0 handle_message_on(m) | 1 add_message_onto(m.out) | 2 ..(m.far)
 //!
 //! Output: 5 numbers per record
@@ -72,6 +77,12 @@ enum Act {
     Panic,
     Quiet,
     SetCatch(bool),
+    /// schedule_at(now - (1 + d)) -- the library panics
+    SchedPast(u64, u64),
+    /// send_at(gate, now - (1 + d)) -- the library panics
+    SendPast(bool, u64, u64),
+    /// current().shutdow_and_restart_at(now - (1 + d)) -- the library panics
+    RestartPast(u64),
 }
 
 type Prog = Vec<Act>;
@@ -90,7 +101,7 @@ struct ModCfg {
 
 fn quads(v: &[u64]) -> Prog {
     v.chunks_exact(4)
-        .map(|c| match c[0] % 10 {
+        .map(|c| match c[0] % 13 {
             0 => Act::Log(c[3]),
             1 => Act::Send(c[1] % 2 == 1, c[2], c[3]),
             2 => Act::Sched(c[2], c[3]),
@@ -100,7 +111,10 @@ fn quads(v: &[u64]) -> Prog {
             6 => Act::Panic,
             7 => Act::Quiet,
             8 => Act::SetCatch(true),
-            _ => Act::SetCatch(false),
+            9 => Act::SetCatch(false),
+            10 => Act::SchedPast(c[2], c[3]),
+            11 => Act::SendPast(c[1] % 2 == 1, c[2], c[3]),
+            _ => Act::RestartPast(c[2]),
         })
         .collect()
 }
@@ -173,7 +187,32 @@ fn simple(m: u64, who: u64, a: Act) {
             log([19, m, who, b as u64, 0]);
             current().set_stereotyp(Stereotyp { on_panic_catch: b, ..Stereotyp::HOST });
         }
-        Act::Sleep(_) | Act::Panic | Act::Quiet => {}
+        Act::Sleep(_) | Act::Panic | Act::Quiet | Act::SchedPast(..) | Act::SendPast(..) | Act::RestartPast(..) => {}
+    }
+}
+
+/// A call of the public API with a time stamp in the past: the library is expected to panic inside the call, i.e. inside
+/// the callback / task that makes it.  At now = 0 there is no past; the script panics itself to keep the action a panic.
+/// If the library does NOT panic the call returns and the program simply goes on.
+fn past_call(a: Act) {
+    let t = now();
+    if t == 0 {
+        panic!("scripted panic (no past at t = 0)");
+    }
+    match a {
+        Act::SchedPast(d, x) => {
+            let at = SimTime::from_duration(Duration::from_nanos(t - (1 + d).min(t)));
+            schedule_at(Message::default().with_content(x), at);
+        }
+        Act::SendPast(far, d, x) => {
+            let at = SimTime::from_duration(Duration::from_nanos(t - (1 + d).min(t)));
+            send_at(Message::default().with_content(x), if far { "far" } else { "out" }, at);
+        }
+        Act::RestartPast(d) => {
+            let at = SimTime::from_duration(Duration::from_nanos(t - (1 + d).min(t)));
+            current().shutdow_and_restart_at(at);
+        }
+        _ => {}
     }
 }
 
@@ -190,6 +229,10 @@ fn run_callback(m: u64, p: &[Act]) {
             Act::Panic => {
                 log([11, m, 0, catching(), 0]);
                 panic!("scripted panic");
+            }
+            Act::SchedPast(..) | Act::SendPast(..) | Act::RestartPast(..) => {
+                log([11, m, 0, catching(), 0]);
+                past_call(a);
             }
             Act::Quiet => {
                 log([12, m, 0, 0, 0]);
@@ -247,6 +290,12 @@ async fn run_task(m: u64, id: u64, inc: u64, p: Prog, guard: Guard) {
                 log([20, m, id, inc, 1]);
                 guard.done.set(true);
                 panic!("scripted task panic");
+            }
+            Act::SchedPast(..) | Act::SendPast(..) | Act::RestartPast(..) => {
+                log([11, m, 1 + id, catching(), 0]);
+                log([20, m, id, inc, 1]);
+                guard.done.set(true);
+                past_call(a);
             }
             Act::Quiet => {}
             a => simple(m, 1 + id, a),
@@ -428,7 +477,7 @@ fn simulate(mods: &[ModCfg], inj: &[(u64, u64, u64, u64)]) -> Vec<u64> {
 
 fn quiet_prog(p: &mut Prog) {
     for a in p.iter_mut() {
-        if let Act::Panic = a {
+        if matches!(a, Act::Panic | Act::SchedPast(..) | Act::SendPast(..) | Act::RestartPast(..)) {
             *a = Act::Quiet;
         }
     }
